@@ -150,6 +150,11 @@ def make_scheme(sch):
     return ScoringScheme([[x / s for x in sch["b"]], [x / s for x in sch["t"]]])
 
 
+def tau(sch):
+    """the library's 0.001 thresholds on the scaled integer grid: x < -0.001  <=>  k < -tau  for k = scale * x"""
+    return sch["scale"] // 1000
+
+
 def scheme_tree(sch):
     return [sch["b"], sch["t"]]
 
@@ -192,6 +197,25 @@ def gen_scheme(rng, family=None, max_pairs=200):
         b = [0, 1, K, K ** 2, K ** 3, K ** 4]
         t = [K ** 5, K ** 5, 0, K ** 6, K ** 6, K ** 7]
         return {"b": b, "t": t, "scale": 1, "family": family}
+    if family == "fine":
+        # scores that differ by less than the library's 0.001 tolerances: penalties on the grid 1/4096 around the presets
+        s = 4096
+        p = rng.choice([2048, 2047, 2049, 2046, 2050, 4095, 4097, 1, 2])
+        q = rng.choice([p, p, p + rng.choice([-1, 1, 2])])
+        kind = rng.choice(["unifying", "pseudo", "induced"])
+        b5 = {"unifying": p, "pseudo": 0, "induced": 0}[kind]
+        b4 = 0 if kind == "induced" else s
+        t34 = 0 if kind == "induced" else q
+        return {"b": [0, s, p, 0, b4, b5], "t": [q, q, 0, t34, t34, 0], "scale": s, "family": family}
+    if family == "cheap_ties":
+        # tie cost below half of the inversion cost (p < 0.5): ties inside cycles become optimal
+        s = 8
+        p = rng.choice([1, 2, 3])
+        kind = rng.choice(["unifying", "pseudo", "induced"])
+        b5 = {"unifying": p, "pseudo": 0, "induced": 0}[kind]
+        b4 = 0 if kind == "induced" else s
+        t34 = 0 if kind == "induced" else p
+        return {"b": [0, s, p, 0, b4, b5], "t": [p, p, 0, t34, t34, 0], "scale": s, "family": family}
     if family == "zeroheavy":
         vals = [0, 0, 0, 1, 2, 8]
     else:
@@ -297,23 +321,24 @@ def gen_dataset(rng, nmax=7, mmax=5, family=None, kind=None, allow_empty=True, n
     elif family == "cyclic":
         # blocks consistently ordered; inside a block the rankings are rotations of one another (Condorcet cycles):
         # multi-component graphs whose components are not trivially tiable
-        k = rng.randint(1, max(1, min(3, n // 2)))
+        pure = rng.random() < 0.4      # exact rotations (Condorcet cycles), no omission, no tie
+        k = 1 if pure else rng.randint(1, max(1, min(3, n // 2)))
         pool = list(elems)
         rng.shuffle(pool)
         blocks = [pool[i::k] for i in range(k)]
         m = max(m, 3)
-        for _ in range(m):
+        for j in range(m):
             r = []
             for blk in blocks:
-                if rng.random() < 0.2:
+                if not pure and rng.random() < 0.2:
                     continue
-                rot = rng.randrange(len(blk))
+                rot = (j % len(blk)) if pure else rng.randrange(len(blk))
                 seq = blk[rot:] + blk[:rot]
-                if rng.random() < 0.3 and len(seq) > 1:
+                if not pure and rng.random() < 0.3 and len(seq) > 1:
                     seq = seq[:-1]
                 bs = []
                 for e in seq:
-                    if bs and rng.random() < 0.15:
+                    if bs and not pure and rng.random() < 0.15:
                         bs[-1].append(e)
                     else:
                         bs.append([e])
